@@ -54,7 +54,6 @@ RetClauses(e) ==
 (* loadParameters() in a running module: usable stored entries replace the values, others stay *)
 ReloadClauses(e) ==
   << <<"Consistent", e.target = s.target>>,
-     <<"RoundTrip", (s.tk /\ e.faults = 0) => \A p \in DOMAIN e.file : e.file[p] = s.tv[p]>>,
      <<"Reload.values", e.ok => \A p \in DOMAIN e.got : e.got[p] = P!Expected(P!NoVal, e.file[p], e.before[p])>> >>
 
 Clauses(e) == CASE e.ev = "fs" -> FsClauses(e)
